@@ -1210,6 +1210,17 @@ func (c *context) createArchiveFile(archivePath string, objFiles []string, verbo
 		return fmt.Errorf("create archive %s: %w\n%s", archivePath, err, output)
 	}
 
+	// ar does not sync what it writes; the archive must be on disk before it
+	// gets the name under which later builds trust it.
+	if f, err := os.OpenFile(tmpName, os.O_RDWR, 0); err == nil {
+		err = f.Sync()
+		f.Close()
+		if err != nil {
+			os.Remove(tmpName)
+			return fmt.Errorf("sync archive %s: %w", archivePath, err)
+		}
+	}
+
 	if err := os.Rename(tmpName, archivePath); err != nil {
 		os.Remove(tmpName)
 		return fmt.Errorf("publish archive %s: %w", archivePath, err)
